@@ -1199,6 +1199,38 @@ impl Transport {
 /// dropped-exchange sweeper without a running transport.
 #[cfg(rs_matter_verif)]
 impl<C: Crypto> TransportRunner<'_, C> {
+    /// Feeds one datagram through the receive path (`process_rx` body: fill the free RX
+    /// buffer, `handle_rx_packet`); a message accepted for an exchange stays in the RX buffer.
+    pub async fn verif_rx_once<S: NetworkSend>(
+        &self,
+        data: &[u8],
+        peer: Address,
+        send: S,
+    ) -> Result<bool, Error> {
+        let send = IfMutex::new(send);
+
+        let mut rx = self
+            .matter
+            .transport
+            .get_if_rx(|packet| packet.buf.is_empty())
+            .await;
+        rx.clear_on_drop(true);
+
+        unwrap!(rx.buf.resize_default(MAX_RX_BUF_SIZE));
+        let len = data.len().min(MAX_RX_BUF_SIZE);
+        rx.buf[..len].copy_from_slice(&data[..len]);
+        rx.peer = peer;
+        rx.buf.truncate(len);
+        rx.payload_start = 0;
+
+        let kept = self.handle_rx_packet(&mut rx, &send).await?;
+        if kept {
+            rx.clear_on_drop(false);
+        }
+
+        Ok(kept)
+    }
+
     /// Runs `handle_dropped_exchange` once on the (free) TX buffer and discards the
     /// packet it may have written. Returns `true` when there was nothing to sweep.
     pub async fn verif_sweep_dropped_once(&self) -> Result<bool, Error> {
